@@ -6,6 +6,14 @@ delta of the extraction.  Budgets (deliberately loose): RSS delta <= 64 MiB + 40
 U = uncompressed input size; for families whose input grows with n the log-log slope of CPU over U must stay <= 1.3
 (judged only when the largest point costs >= 0.5 s CPU).  Explicit limits (read_file max_file_size, 7z 100 MB,
 per-member archive limit) are probed at limit-1 / limit / limit+1.
+
+"Many of them" families (``*-many-*``: n tiny messages / archive members / sheets / slides / pages / chapters /
+paragraphs / attachments / recipients, series n, 4n, 16n): the input grows with n and the work per item is constant, so
+anything done once per item at a cost proportional to the whole (re-slicing the rest of a mailbox for every separator,
+looking a sheet up by scanning all sheets, re-reading an index) shows as exponent 2.  Their series are sized so that the
+largest point costs 0.5 .. 2.5 s CPU on the unchanged tree - the slope is judged on every run - and each series is
+measured by one worker process (work_series: warm-up, ascending n, a second look before a slope above 1.15 is
+reported), which keeps the number of process starts, and with it the tier's wall time, where it was.
 """
 from __future__ import annotations
 
@@ -133,6 +141,90 @@ def f_docx_entity_bomb(n):
     return "docx", ooxml._zip(parts), sum(len(v) for v in parts.values())
 
 
+# ---- one long internal entity referenced n times ("quadratic blow-up"): every format whose XML parts come out of a ZIP.
+# 2000 characters x 3500 references = 7 MB of character data from a ~20 KB part - below the 8 MiB at which expat's own
+# amplification guard wakes up, so only a parser that refuses entity declarations altogether keeps the cost bounded.
+ENTITY_LEN = 2000
+
+
+def _dtd():
+    return '<!DOCTYPE d [<!ENTITY a "' + "A" * ENTITY_LEN + '">]>'
+
+
+def _refs(n, open_tag, close_tag, per=50):
+    return "".join(open_tag + "&a;" * min(per, n - i) + close_tag for i in range(0, n, per))
+
+
+def f_docx_entity_refs(n):
+    from vlib.gen import ooxml
+    doc = (f'<?xml version="1.0"?>{_dtd()}<w:document xmlns:w="{ooxml.W}"><w:body>' + _refs(n, "<w:p><w:r><w:t>", "</w:t></w:r></w:p>") + "</w:body></w:document>").encode()
+    parts = {"[Content_Types].xml": ooxml._ct(ooxml.IMG_DEFAULTS, {"/word/document.xml": "application/vnd.openxmlformats-officedocument.wordprocessingml.document.main+xml"}),
+             "_rels/.rels": ooxml._rels([("rId1", ooxml.REL_T + "officeDocument", "word/document.xml", None)]), "word/document.xml": doc}
+    return "docx", ooxml._zip(parts), sum(len(v) for v in parts.values())
+
+
+def f_pptx_entity_refs(n):
+    from vlib.gen import ooxml
+    A, P, R_NS, REL_T = ooxml.A, ooxml.P, ooxml.R_NS, ooxml.REL_T
+    parts = {"ppt/slides/slide1.xml": (f'<?xml version="1.0" encoding="UTF-8" standalone="yes"?>{_dtd()}<p:sld xmlns:a="{A}" xmlns:p="{P}" xmlns:r="{R_NS}"><p:cSld><p:spTree>'
+                                       f'<p:nvGrpSpPr><p:cNvPr id="1" name=""/><p:cNvGrpSpPr/><p:nvPr/></p:nvGrpSpPr><p:grpSpPr/>'
+                                       f'<p:sp><p:nvSpPr><p:cNvPr id="2" name="t"/><p:cNvSpPr/><p:nvPr><p:ph type="body"/></p:nvPr></p:nvSpPr><p:spPr/><p:txBody><a:bodyPr/>'
+                                       + _refs(n, "<a:p><a:r><a:t>", "</a:t></a:r></a:p>") + '</p:txBody></p:sp></p:spTree></p:cSld></p:sld>').encode(),
+             "ppt/slides/_rels/slide1.xml.rels": ooxml._rels([]),
+             "ppt/presentation.xml": (f'<?xml version="1.0" encoding="UTF-8" standalone="yes"?><p:presentation xmlns:a="{A}" xmlns:p="{P}" xmlns:r="{R_NS}"><p:sldIdLst><p:sldId id="256" r:id="rIdS1"/></p:sldIdLst>'
+                                      '<p:sldSz cx="9144000" cy="6858000"/></p:presentation>').encode(),
+             "ppt/_rels/presentation.xml.rels": ooxml._rels([("rIdS1", REL_T + "slide", "slides/slide1.xml", None)]),
+             "_rels/.rels": ooxml._rels([("rId1", REL_T + "officeDocument", "ppt/presentation.xml", None)]),
+             "[Content_Types].xml": ooxml._ct(ooxml.IMG_DEFAULTS, {"/ppt/presentation.xml": "application/vnd.openxmlformats-officedocument.presentationml.presentation.main+xml"})}
+    order = ["[Content_Types].xml", "_rels/.rels"] + [k for k in parts if k not in ("[Content_Types].xml", "_rels/.rels")]
+    return "pptx", ooxml._zip(parts, order), sum(len(v) for v in parts.values())
+
+
+def _odf_dtd(kind, body):
+    from vlib.gen import odf
+    content = f'<?xml version="1.0" encoding="UTF-8"?>{_dtd()}<office:document-content {odf.NSDECL}><office:body>{body}</office:body></office:document-content>'
+    meta = f'<?xml version="1.0" encoding="UTF-8"?><office:document-meta {odf.NSDECL}><office:meta/></office:document-meta>'
+    return kind, odf._pkg(kind, content, meta, None, {}), len(content) + len(meta)
+
+
+def f_odt_entity_refs(n):
+    return _odf_dtd("odt", "<office:text>" + _refs(n, "<text:p>", "</text:p>") + "</office:text>")
+
+
+def f_ods_entity_refs(n):
+    return _odf_dtd("ods", '<office:spreadsheet><table:table table:name="s">' + _refs(n, '<table:table-row><table:table-cell office:value-type="string"><text:p>', "</text:p></table:table-cell></table:table-row>")
+                    + "</table:table></office:spreadsheet>")
+
+
+def f_odp_entity_refs(n):
+    return _odf_dtd("odp", '<office:presentation><draw:page draw:name="p"><draw:frame svg:x="1cm" svg:y="1cm"><draw:text-box>' + _refs(n, "<text:p>", "</text:p>") + "</draw:text-box></draw:frame></draw:page></office:presentation>")
+
+
+def f_odg_entity_refs(n):
+    return _odf_dtd("odg", '<office:drawing><draw:page draw:name="p"><draw:frame svg:x="1cm" svg:y="1cm" svg:width="5cm" svg:height="1cm"><draw:text-box>' + _refs(n, "<text:p>", "</text:p>")
+                    + "</draw:text-box></draw:frame></draw:page></office:drawing>")
+
+
+def f_epub_entity_refs(n):
+    # the package document goes through the ZIP XML reader (chapters are read by an HTML parser): the references sit in its metadata
+    dt = (2024, 1, 2, 3, 4, 6)
+    bio = io.BytesIO()
+    u = 0
+    with zipfile.ZipFile(bio, "w") as z:
+        def w(name, text, method=zipfile.ZIP_DEFLATED):
+            nonlocal u
+            u += len(text)
+            z.writestr(zipfile.ZipInfo(name, date_time=dt), text, method)
+        w("mimetype", "application/epub+zip", zipfile.ZIP_STORED)
+        w("META-INF/container.xml", '<?xml version="1.0"?><container version="1.0" xmlns="urn:oasis:names:tc:opendocument:xmlns:container"><rootfiles>'
+                                    '<rootfile full-path="OEBPS/content.opf" media-type="application/oebps-package+xml"/></rootfiles></container>')
+        w("OEBPS/content.opf", f'<?xml version="1.0" encoding="utf-8"?>{_dtd()}<package xmlns="http://www.idpf.org/2007/opf" version="3.0" unique-identifier="id"><metadata xmlns:dc="http://purl.org/dc/elements/1.1/">'
+                               '<dc:identifier id="id">urn:uuid:verif-c12</dc:identifier><dc:title>' + "&a;" * (n // 4) + "</dc:title><dc:creator>" + "&a;" * (n // 4) + "</dc:creator><dc:description>" + "&a;" * (n // 2)
+                               + '</dc:description><dc:language>en</dc:language></metadata><manifest><item id="ch0" href="text/ch0.xhtml" media-type="application/xhtml+xml"/></manifest><spine><itemref idref="ch0"/></spine></package>')
+        w("OEBPS/text/ch0.xhtml", '<?xml version="1.0" encoding="utf-8"?><!DOCTYPE html><html xmlns="http://www.w3.org/1999/xhtml"><head><title>c</title></head><body><p>chapter</p></body></html>')
+    return "epub", bio.getvalue(), u
+
+
 def f_html_deep_divs(n):
     d = b"<html><body>" + b"<div>" * n + b"x" + b"</div>" * n + b"</body></html>"
     return "html", d, len(d)
@@ -169,9 +261,37 @@ def f_rtf_fonttbl_newlines(n):
 
 
 def f_mbox_many_messages(n):
-    msg = b"From a@example.org Mon Jan  1 10:00:00 2024\nFrom: a@example.org\nTo: b@example.org\nSubject: s\nDate: Mon, 01 Jan 2024 10:00:00 +0000\nMessage-ID: <%d@x>\n\nbody\n\n"
+    # n short messages (a few header lines, sixteen lines of text: ~1.2 KB each; 16 000 of them are 19 MB).  Whatever
+    # the reader does once per separator line at a cost proportional to the mailbox (re-scan, re-slice, re-decode)
+    # shows as exponent 2 here: the per-message parse is cheap (~0.15 ms), so such a term dominates from a few
+    # thousand messages on.  (With 160-byte messages the parse hides a memcpy-speed quadratic term up to 30 000 messages.)
+    msg = (b"From a@example.org Mon Jan  1 10:00:00 2024\nFrom: a@example.org\nTo: b@example.org\nSubject: s\nDate: Mon, 01 Jan 2024 10:00:00 +0000\nMessage-ID: <%d@x>\n\n"
+           + b"0123456789 0123456789 0123456789 0123456789 0123456789 0123456789\n" * 16 + b"\n")
     d = b"".join(msg % i for i in range(n))
     return "mbox", d, len(d)
+
+
+def f_mbox_many_recipients(n):
+    kind, d, u = f_eml_many_recipients(n)
+    d = b"From a@example.org Mon Jan  1 10:00:00 2024\n" + d + b"\n"
+    return "mbox", d, len(d)
+
+
+def f_eml_many_recipients(n):
+    d = (b"From: a@example.org\nTo: " + b",\n ".join(b"Rcpt %d <r%d@example.org>" % (i, i) for i in range(n))
+         + b"\nSubject: s\nDate: Mon, 01 Jan 2024 10:00:00 +0000\nMessage-ID: <1@x>\n\nbody\n")
+    return "eml", d, len(d)
+
+
+def f_eml_many_attachments(n):
+    from email.message import EmailMessage
+    m = EmailMessage()
+    m["From"], m["To"], m["Subject"], m["Date"], m["Message-ID"] = "a@example.org", "b@example.org", "s", "Mon, 01 Jan 2024 10:00:00 +0000", "<1@x>"
+    m.set_content("body\n")
+    for i in range(n):
+        m.add_attachment(b"attachment %d\n" % i, maintype="application", subtype="octet-stream", filename=f"a{i}.bin")
+    d = m.as_bytes()
+    return "eml", d, len(d)
 
 
 def f_txt_long(n):
@@ -233,12 +353,128 @@ def f_ppt_nested_slide_lists(n):
     return "ppt", out, len(out)
 
 
+# ---- "many of them" families: n tiny members / sheets / slides / pages / chapters / paragraphs.  The input grows with n
+# and the work per item is constant, so anything done once per item at a cost proportional to the whole (look-up by
+# scanning, re-parsing the index, copying the rest) shows as exponent 2.  Series are sized so that the largest point
+# costs 0.5 .. 2 s CPU on the unchanged tree: the slope is then judged on every run, not only after a regression.
+ARCHIVE_EXT = {"zip": ".zip", "tar": ".tar", "tar.gz": ".tar.gz", "7z": ".7z"}     # kinds read by the archive extractor, by path
+
+
+def _many_members(layout, kind, n):
+    from vlib.gen import archives
+    members = [{"name": f"d{i % 40}/m{i}.txt", "data": b"member %d\n" % i} for i in range(n)]
+    data = archives.build(layout, members)
+    return kind, data, sum(len(m["data"]) for m in members) + len(data)
+
+
 def f_zip_many_small_members(n):
+    return _many_members("zip-deflated", "zip", n)
+
+
+def f_tar_many_small_members(n):
+    return _many_members("tar", "tar", n)
+
+
+# (no 7z family: the 7z path writes every member to a temporary directory, and the file-system share of its CPU time
+#  varies by a factor of two between runs on a busy machine - per-member cost 0.18 .. 0.54 ms without any trend in n,
+#  measured up to 16 000 members - which a slope threshold of 1.3 cannot tell from a super-linear term)
+
+
+def f_xlsx_many_sheets(n):
+    from vlib.gen import ooxml
+    S, R_NS, REL_T = ooxml.S, ooxml.R_NS, ooxml.REL_T
+    ws = "application/vnd.openxmlformats-officedocument.spreadsheetml.worksheet+xml"
+    parts = {
+        "[Content_Types].xml": ooxml._ct(ooxml.IMG_DEFAULTS, dict({"/xl/workbook.xml": "application/vnd.openxmlformats-officedocument.spreadsheetml.sheet.main+xml"},
+                                                                   **{f"/xl/worksheets/sheet{i}.xml": ws for i in range(1, n + 1)})),
+        "_rels/.rels": ooxml._rels([("rId1", REL_T + "officeDocument", "xl/workbook.xml", None)]),
+        "xl/workbook.xml": (f'<?xml version="1.0"?><workbook xmlns="{S}" xmlns:r="{R_NS}"><sheets>' + "".join(f'<sheet name="s{i}" sheetId="{i}" r:id="rId{i}"/>' for i in range(1, n + 1)) + "</sheets></workbook>").encode(),
+        "xl/_rels/workbook.xml.rels": ooxml._rels([(f"rId{i}", REL_T + "worksheet", f"worksheets/sheet{i}.xml", None) for i in range(1, n + 1)]),
+    }
+    for i in range(1, n + 1):
+        parts[f"xl/worksheets/sheet{i}.xml"] = f'<?xml version="1.0"?><worksheet xmlns="{S}"><sheetData><row r="1"><c r="A1"><v>{i}</v></c><c r="B1" t="inlineStr"><is><t>x{i}</t></is></c></row></sheetData></worksheet>'.encode()
+    return "xlsx", ooxml._zip(parts), sum(len(v) for v in parts.values())
+
+
+def f_pptx_many_slides(n):
+    from vlib.gen import ooxml
+    A, P, R_NS, REL_T = ooxml.A, ooxml.P, ooxml.R_NS, ooxml.REL_T
+    parts = {}
+    for i in range(1, n + 1):
+        parts[f"ppt/slides/slide{i}.xml"] = (f'<?xml version="1.0" encoding="UTF-8" standalone="yes"?><p:sld xmlns:a="{A}" xmlns:p="{P}" xmlns:r="{R_NS}"><p:cSld><p:spTree>'
+                                             f'<p:nvGrpSpPr><p:cNvPr id="1" name=""/><p:cNvGrpSpPr/><p:nvPr/></p:nvGrpSpPr><p:grpSpPr/>'
+                                             f'<p:sp><p:nvSpPr><p:cNvPr id="2" name="t"/><p:cNvSpPr/><p:nvPr><p:ph type="title"/></p:nvPr></p:nvSpPr><p:spPr/><p:txBody><a:bodyPr/><a:p><a:r><a:t>slide {i}</a:t></a:r></a:p></p:txBody></p:sp>'
+                                             f'</p:spTree></p:cSld></p:sld>').encode()
+        parts[f"ppt/slides/_rels/slide{i}.xml.rels"] = ooxml._rels([])
+    parts["ppt/presentation.xml"] = (f'<?xml version="1.0" encoding="UTF-8" standalone="yes"?><p:presentation xmlns:a="{A}" xmlns:p="{P}" xmlns:r="{R_NS}"><p:sldIdLst>'
+                                     + "".join(f'<p:sldId id="{255 + i}" r:id="rIdS{i}"/>' for i in range(1, n + 1)) + '</p:sldIdLst><p:sldSz cx="9144000" cy="6858000"/></p:presentation>').encode()
+    parts["ppt/_rels/presentation.xml.rels"] = ooxml._rels([(f"rIdS{i}", REL_T + "slide", f"slides/slide{i}.xml", None) for i in range(1, n + 1)])
+    parts["_rels/.rels"] = ooxml._rels([("rId1", REL_T + "officeDocument", "ppt/presentation.xml", None)])
+    parts["[Content_Types].xml"] = ooxml._ct(ooxml.IMG_DEFAULTS, {"/ppt/presentation.xml": "application/vnd.openxmlformats-officedocument.presentationml.presentation.main+xml"})
+    order = ["[Content_Types].xml", "_rels/.rels"] + [k for k in parts if k not in ("[Content_Types].xml", "_rels/.rels")]
+    return "pptx", ooxml._zip(parts, order), sum(len(v) for v in parts.values())
+
+
+def _docx_body(body):
+    from vlib.gen import ooxml
+    doc = f'<?xml version="1.0"?><w:document xmlns:w="{ooxml.W}"><w:body>{body}</w:body></w:document>'.encode()
+    parts = {"[Content_Types].xml": ooxml._ct(ooxml.IMG_DEFAULTS, {"/word/document.xml": "application/vnd.openxmlformats-officedocument.wordprocessingml.document.main+xml"}),
+             "_rels/.rels": ooxml._rels([("rId1", ooxml.REL_T + "officeDocument", "word/document.xml", None)]), "word/document.xml": doc}
+    return "docx", ooxml._zip(parts), sum(len(v) for v in parts.values())
+
+
+def f_docx_many_paragraphs(n):
+    return _docx_body("".join(f"<w:p><w:r><w:t>para {i}</w:t></w:r></w:p>" for i in range(n)))
+
+
+def f_docx_many_tables(n):
+    return _docx_body("".join(f"<w:tbl><w:tr><w:tc><w:p><w:r><w:t>a{i}</w:t></w:r></w:p></w:tc><w:tc><w:p><w:r><w:t>b</w:t></w:r></w:p></w:tc></w:tr></w:tbl><w:p><w:r><w:t>p{i}</w:t></w:r></w:p>" for i in range(n)))
+
+
+def f_ods_many_sheets(n):
+    data, u = _odf("ods", "<office:spreadsheet>" + "".join(f'<table:table table:name="s{i}"><table:table-row><table:table-cell office:value-type="string"><text:p>x{i}</text:p></table:table-cell></table:table-row></table:table>' for i in range(n)) + "</office:spreadsheet>")
+    return "ods", data, u
+
+
+def f_odp_many_slides(n):
+    data, u = _odf("odp", "<office:presentation>" + "".join(f'<draw:page draw:name="p{i}"><draw:frame svg:x="1cm" svg:y="1cm"><draw:text-box><text:p>slide {i}</text:p></draw:text-box></draw:frame></draw:page>' for i in range(n)) + "</office:presentation>")
+    return "odp", data, u
+
+
+def f_odt_many_paragraphs(n):
+    data, u = _odf("odt", "<office:text>" + "".join(f"<text:p>para {i}</text:p>" for i in range(n)) + "</office:text>")
+    return "odt", data, u
+
+
+def f_epub_many_chapters(n):
+    dt = (2024, 1, 2, 3, 4, 6)
     bio = io.BytesIO()
-    with zipfile.ZipFile(bio, "w", zipfile.ZIP_DEFLATED) as z:
+    u = 0
+    with zipfile.ZipFile(bio, "w") as z:
+        def w(name, text, method=zipfile.ZIP_DEFLATED):
+            nonlocal u
+            u += len(text)
+            z.writestr(zipfile.ZipInfo(name, date_time=dt), text, method)
+        w("mimetype", "application/epub+zip", zipfile.ZIP_STORED)
+        w("META-INF/container.xml", '<?xml version="1.0"?><container version="1.0" xmlns="urn:oasis:names:tc:opendocument:xmlns:container"><rootfiles>'
+                                    '<rootfile full-path="OEBPS/content.opf" media-type="application/oebps-package+xml"/></rootfiles></container>')
+        w("OEBPS/content.opf", '<?xml version="1.0" encoding="utf-8"?><package xmlns="http://www.idpf.org/2007/opf" version="3.0" unique-identifier="id"><metadata xmlns:dc="http://purl.org/dc/elements/1.1/">'
+                               '<dc:identifier id="id">urn:uuid:verif-c12</dc:identifier><dc:title>t</dc:title><dc:language>en</dc:language></metadata><manifest>'
+                               + "".join(f'<item id="ch{i}" href="text/ch{i}.xhtml" media-type="application/xhtml+xml"/>' for i in range(n)) + "</manifest><spine>"
+                               + "".join(f'<itemref idref="ch{i}"/>' for i in range(n)) + "</spine></package>")
         for i in range(n):
-            z.writestr(f"m{i}.txt", b"hello\n")
-    return "zip", bio.getvalue(), 6 * n + len(bio.getvalue())
+            w(f"OEBPS/text/ch{i}.xhtml", f'<?xml version="1.0" encoding="utf-8"?><!DOCTYPE html><html xmlns="http://www.w3.org/1999/xhtml"><head><title>c{i}</title></head><body><p>chapter {i}</p></body></html>')
+    return "epub", bio.getvalue(), u
+
+
+def f_html_many_paragraphs(n):
+    d = b"<html><body>" + b"".join(b"<p>para %d</p>" % i for i in range(n)) + b"</body></html>"
+    return "html", d, len(d)
+
+
+def f_rtf_many_paragraphs(n):
+    d = b"{\\rtf1\\ansi " + b"".join(b"para %d\\par\n" % i for i in range(n)) + b"}"
+    return "rtf", d, len(d)
 
 
 FAMILIES = {
@@ -255,21 +491,60 @@ FAMILIES = {
     "xlsx-declared-dimension": (f_xlsx_declared_dimension, [100, 200, 400, 800], "count"),
     "docx-deep-nested-tables": (f_docx_deep_tables, [40, 80, 160, 320], "size"),
     "docx-entity-expansion": (f_docx_entity_bomb, [4, 6, 8, 10], "count"),
+    "docx-entity-many-references": (f_docx_entity_refs, [500, 1_500, 3_500], "count"),
+    "pptx-entity-many-references": (f_pptx_entity_refs, [500, 1_500, 3_500], "count"),
+    "odt-entity-many-references": (f_odt_entity_refs, [500, 1_500, 3_500], "count"),
+    "ods-entity-many-references": (f_ods_entity_refs, [500, 1_500, 3_500], "count"),
+    "odp-entity-many-references": (f_odp_entity_refs, [500, 1_500, 3_500], "count"),
+    "odg-entity-many-references": (f_odg_entity_refs, [500, 1_500, 3_500], "count"),
+    "epub-entity-many-references": (f_epub_entity_refs, [500, 1_500, 3_500], "count"),
     "html-deep-divs": (f_html_deep_divs, [200, 400, 800, 1600], "size"),
     "html-unterminated-comments": (f_html_unterminated_comment, [2_000, 4_000, 8_000, 16_000], "size"),
-    "html-many-tables": (f_html_many_tables, [500, 1_000, 2_000, 4_000], "size"),
+    "html-many-tables": (f_html_many_tables, [1_000, 4_000, 16_000], "size"),
     "rtf-unclosed-header-groups": (f_rtf_unclosed_header_groups, [1_000, 2_000, 4_000, 8_000], "size"),
-    "rtf-many-table-rows": (f_rtf_many_trowd, [500, 1_000, 2_000, 4_000], "size"),
+    "rtf-many-table-rows": (f_rtf_many_trowd, [750, 3_000, 12_000], "size"),
     "rtf-deep-groups": (f_rtf_deep_groups, [5_000, 10_000, 20_000, 40_000], "size"),
     "rtf-fonttbl-newline-run": (f_rtf_fonttbl_newlines, [2_500, 5_000, 10_000, 20_000], "size"),
-    "mbox-many-messages": (f_mbox_many_messages, [500, 1_000, 2_000, 4_000], "size"),
+    "mbox-many-messages": (f_mbox_many_messages, [1_000, 4_000, 16_000], "size"),
+    "mbox-many-recipients": (f_mbox_many_recipients, [2_000, 8_000, 32_000], "size"),
+    "eml-many-recipients": (f_eml_many_recipients, [500, 2_000, 8_000], "size"),
+    "eml-many-attachments": (f_eml_many_attachments, [500, 2_000, 8_000], "size"),
     "txt-long": (f_txt_long, [50_000, 100_000, 200_000, 400_000], "size"),
-    "pdf-many-pages": (f_pdf_many_pages, [25, 50, 100, 200], "size"),
+    "pdf-many-pages": (f_pdf_many_pages, [80, 320, 1_280], "size"),
     "pdf-page-tree-cycle": (f_pdf_kids_cycle, [5, 10, 20, 40], "size"),
     "ole-property-vector-count": (f_ole_vector_count, [1 << 20, 1 << 21, 1 << 22, 1 << 23], "count"),
     "ppt-nested-slide-lists": (f_ppt_nested_slide_lists, [250, 500, 1_000, 2_000], "size"),
-    "zip-many-small-members": (f_zip_many_small_members, [250, 500, 1_000, 2_000], "size"),
+    "zip-many-small-members": (f_zip_many_small_members, [500, 2_000, 8_000], "size"),
+    "tar-many-small-members": (f_tar_many_small_members, [500, 2_000, 8_000], "size"),
+    "xlsx-many-sheets": (f_xlsx_many_sheets, [400, 800, 1_600], "size"),
+    "pptx-many-slides": (f_pptx_many_slides, [125, 500, 2_000], "size"),
+    "docx-many-paragraphs": (f_docx_many_paragraphs, [2_500, 10_000, 40_000], "size"),
+    "docx-many-tables": (f_docx_many_tables, [750, 3_000, 12_000], "size"),
+    "ods-many-sheets": (f_ods_many_sheets, [2_000, 8_000, 32_000], "size"),
+    "odp-many-slides": (f_odp_many_slides, [1_500, 6_000, 24_000], "size"),
+    "odt-many-paragraphs": (f_odt_many_paragraphs, [6_000, 24_000, 96_000], "size"),
+    "epub-many-chapters": (f_epub_many_chapters, [500, 2_000, 8_000], "size"),
+    "html-many-paragraphs": (f_html_many_paragraphs, [4_000, 16_000, 64_000], "size"),
+    "rtf-many-paragraphs": (f_rtf_many_paragraphs, [8_000, 32_000, 128_000], "size"),
 }
+
+# Families whose whole series is measured by one worker process (ascending n, see work_series): the "many of them"
+# families.  One process start per family instead of one per point keeps the tier's cost where it was.
+ONE_WORKER_PER_SERIES = {f for f in FAMILIES if "-many-" in f}
+
+
+def output_chars(r) -> int:
+    """Characters a result hands back as text and as metadata strings: a lower bound of what the extraction allocated for it."""
+    n = 0
+    try:
+        n += len(r.get_full_text() or "")
+    except Exception:
+        pass
+    try:
+        n += sum(len(v) for v in vars(r.get_metadata()).values() if isinstance(v, str))
+    except Exception:
+        pass
+    return n
 
 
 def rss_kb():
@@ -281,9 +556,11 @@ def work(case):
     from vlib.worker import arm_cpu
     if case["part"] == "limit":
         return work_limit(case)
+    if "ns" in case:
+        return work_series(case)
     builder = FAMILIES[case["family"]][0]
     kind, data, u = builder(case["n"])
-    path = "dir/in" + {"zip": ".zip"}.get(kind, "." + kind)
+    path = "dir/in" + ARCHIVE_EXT.get(kind, "." + kind)
     import gc
     gc.collect()
     r0 = rss_kb()
@@ -291,11 +568,12 @@ def work(case):
     t0 = time.process_time()
     n = 0
     exc = None
+    out_chars = 0
     try:
-        for r in obs.extractor(kind)(io.BytesIO(data), path):
+        for r in obs.extractor("zip" if kind in ARCHIVE_EXT else kind)(io.BytesIO(data), path):
             n += 1
+            out_chars += output_chars(r)
             try:
-                r.get_full_text()
                 for _ in r.iterate_units():
                     pass
             except Exception:
@@ -305,8 +583,78 @@ def work(case):
     except Exception as e:
         exc = obs.exc_record(e, n)
     cpu = time.process_time() - t0
-    return {"family": case["family"], "n": case["n"], "u": u, "size": len(data), "cpu": round(cpu, 3), "rss_delta_kb": max(0, rss_kb() - r0), "results": n,
+    return {"family": case["family"], "n": case["n"], "u": u, "size": len(data), "cpu": round(cpu, 3), "rss_delta_kb": max(0, rss_kb() - r0), "results": n, "out_chars": out_chars,
             "exc": exc and {"name": exc["name"], "cause": exc["cause"], "ok": exc["is_extraction_error"]}}
+
+
+def work_series(case):
+    """All points of one size-growing family in one process, ascending n: -> {"points": [one observation per n]}.
+
+    * a small unmeasured warm-up input first (lazy imports, compiled patterns), so that the smallest point is not
+      charged with them;
+    * ru_maxrss is a high-water mark: the RSS delta of a point is the growth of the mark *beyond the smaller points
+      before it* (an under-estimate by at most the previous peak - with inputs growing x4 a memory amplifier still
+      shows at every step);
+    * CPU time is what the slope is judged on, and one disturbed point (machine load) can tilt a three-point slope by
+      0.2 .. 0.3: when the first pass gives a slope above 1.15 the series is measured again (twice when cheap) and
+      the *minimum* CPU per point is reported - a real super-linear term is in every pass, a disturbance is not."""
+    import gc
+    from vlib import obs
+    from vlib.worker import CpuBudget, arm_cpu, disarm_cpu
+    fam = case["family"]
+    builder = FAMILIES[fam][0]
+
+    def run(kind, data, n):
+        path = "dir/in" + ARCHIVE_EXT.get(kind, "." + kind)
+        gc.collect()
+        r0 = rss_kb()
+        arm_cpu(case.get("cpu_limit", 40))
+        t0 = time.process_time()
+        k, exc, out_chars = 0, None, 0
+        try:
+            for r in obs.extractor("zip" if kind in ARCHIVE_EXT else kind)(io.BytesIO(data), path):
+                k += 1
+                out_chars += output_chars(r)
+                try:
+                    for _ in r.iterate_units():
+                        pass
+                except Exception:
+                    pass
+        except MemoryError:
+            raise
+        except Exception as e:
+            exc = obs.exc_record(e, k)
+        finally:
+            disarm_cpu()
+        cpu = time.process_time() - t0
+        return {"family": fam, "n": n, "size": len(data), "cpu": round(cpu, 3), "rss_delta_kb": max(0, rss_kb() - r0), "results": k, "out_chars": out_chars,
+                "exc": exc and {"name": exc["name"], "cause": exc["cause"], "ok": exc["is_extraction_error"]}}
+
+    ns = sorted(case["ns"])
+    kind, data, _ = builder(max(1, ns[0] // 8))
+    run(kind, data, 0)                                  # warm-up, not reported
+    points, inputs = {}, {}
+    for n in ns:
+        kind, data, u = inputs[n] = builder(n)
+        try:
+            points[n] = dict(run(kind, data, n), u=u)
+        except CpuBudget:
+            points[n] = {"family": fam, "n": n, "_cpu_exhausted": True}
+            break                                       # the larger points would only take longer
+    good = [points[n] for n in ns if n in points and "cpu" in points[n]]
+    passes = 1
+    if len(good) == len(ns) >= 3:
+        for _ in range(2 if sum(p["cpu"] for p in good) < 2 else 1):
+            if good[-1]["cpu"] < 0.4 or slope([p["u"] for p in good], [p["cpu"] for p in good]) <= 1.15:
+                break
+            passes += 1
+            for n in ns:
+                try:
+                    again = run(inputs[n][0], inputs[n][1], n)
+                except CpuBudget:
+                    break
+                points[n]["cpu"] = min(points[n]["cpu"], again["cpu"])
+    return {"points": [points[n] for n in ns if n in points], "passes": passes}
 
 
 # ------------------------------------------------------------------------------------------ explicit limits
@@ -323,7 +671,19 @@ def work_limit(case):
         with tempfile.TemporaryDirectory(prefix="verif-c12-") as td:
             p = os.path.join(td, "f.txt")
             size = case["size"]
-            if case.get("sparse"):
+            if case.get("tar"):
+                # a valid TAR (one small text member) padded with zero blocks - ordinary end-of-archive padding - up to `size`, sparse:
+                # accepted means cheap (the reader stops at the first zero block), unlike 100 MB of NUL "text"
+                import tarfile
+                p = os.path.join(td, "f.tar")
+                with tarfile.open(p, "w") as t:
+                    ti = tarfile.TarInfo("member.txt")
+                    body = b"qa00001z member text\n"
+                    ti.size = len(body)
+                    t.addfile(ti, io.BytesIO(body))
+                with open(p, "r+b") as f:
+                    f.truncate(size)
+            elif case.get("sparse"):
                 with open(p, "wb") as f:
                     f.truncate(size)
             else:
@@ -399,11 +759,16 @@ def slope(xs, ys):
 def main(run):
     run.rule = ("case = one measurement (amplifier family, n) in a fresh worker process, or one explicit-limit probe; distinct = (family, n, outcome class); non-trivial = the extractor ran to completion / exception and "
                 "CPU time and RSS delta were recorded (or the limit decision was observed)")
-    run.assumptions = ["budgets: RSS delta <= 64 MiB + 40 x U; CPU <= 2 s + 2 us x U x log2(U); slope of log CPU over log U <= 1.3 for size-growing families when the largest point costs >= 0.5 s",
-                       "U = sum of member sizes for ZIP containers, file size otherwise", "CPU time is process CPU time of the worker, never wall-clock"]
+    run.assumptions = ["budgets: RSS delta <= 64 MiB + 40 x U; CPU <= 2 s + 2 us x U x log2(U); returned text + metadata strings <= 1 MiB + 4 x U characters (judged last, when neither memory nor CPU was over); slope of log CPU over log U <= 1.3 for size-growing families when the largest point costs >= 0.5 s",
+                       "U = sum of member sizes for ZIP containers, file size otherwise", "CPU time is process CPU time of the worker, never wall-clock",
+                       "the *-many-* families measure their whole series (n, 4n, 16n) in one worker process, ascending: the RSS delta of a point is the growth of the high-water mark beyond the smaller points before it; "
+                       "when a first pass gives a slope above 1.15 the series is measured again and the minimum CPU time per point is judged (a disturbed point is not in every pass, a super-linear term is)"]
     mult = 1 if run.quick else 2
     cases = []
     for fam, (builder, series, kind) in FAMILIES.items():
+        if fam in ONE_WORKER_PER_SERIES:
+            cases.append({"part": "amp", "family": fam, "n": max(series) * mult, "ns": [n * mult for n in series]})
+            continue
         for n in series:
             cases.append({"part": "amp", "family": fam, "n": n * mult})
     limits = []
@@ -412,6 +777,11 @@ def main(run):
             limits.append({"part": "limit", "which": "read_file", "limit": lim, "size": size, "label": f"max_file_size={lim},size={size}", "expect": "too-large" if size > lim else "accepted"})
     limits.append({"part": "limit", "which": "read_file", "limit": 0, "size": 5000, "label": "max_file_size=0 (disabled),size=5000", "expect": "accepted"})
     limits.append({"part": "limit", "which": "read_file", "limit": None, "size": 100 * MIB + 1, "sparse": True, "label": "default limit,size=100MiB+1", "expect": "too-large"})
+    # "Set to 0 to disable size checking": only a file above the *default* limit tells a disabled check from the default one
+    limits.append({"part": "limit", "which": "read_file", "limit": 0, "size": 100 * MIB + 512, "tar": True, "label": "max_file_size=0 (disabled),size=100MiB+512", "expect": "accepted"})
+    limits.append({"part": "limit", "which": "read_file", "limit": None, "size": 100 * MIB + 512, "tar": True, "label": "default limit,tar of 100MiB+512", "expect": "too-large"})
+    limits.append({"part": "limit", "which": "read_file", "limit": 100 * MIB + 512, "size": 100 * MIB + 512, "tar": True, "label": "max_file_size=100MiB+512,size=100MiB+512", "expect": "accepted"})
+    limits.append({"part": "limit", "which": "read_file", "limit": 100 * MIB + 511, "size": 100 * MIB + 512, "tar": True, "label": "max_file_size=100MiB+511,size=100MiB+512", "expect": "too-large"})
     limits.append({"part": "limit", "which": "7z-size", "size": 100 * MIB + 1, "label": "7z size 100MiB+1", "expect": "too-large"})
     limits.append({"part": "limit", "which": "7z-size", "size": 100 * MIB, "label": "7z size 100MiB", "expect": "not-too-large"})
     for layout in ("zip-deflated", "tar.gz", "7z-lzma-solid", "7z-lzma-per-file"):
@@ -427,6 +797,12 @@ def main(run):
             print(ob.get("_tb"))
             continue
         if case["part"] == "amp":
+            if "points" in ob:                         # one worker measured the whole series (work_series)
+                for p in ob["points"]:
+                    series.setdefault(case["family"], {})[p["n"]] = p
+                if ob.get("passes", 1) > 1:
+                    run.count("series_measured_again_before_judging")
+                continue
             series.setdefault(case["family"], {})[case["n"]] = ob
             continue
         # ---- explicit limits
@@ -487,12 +863,16 @@ def main(run):
             u = max(ob["u"], 64)
             rss_budget = 64 * MIB + 40 * u
             cpu_budget = 2.0 + 2e-6 * u * math.log2(u)
-            rows.append({"n": n, "size": ob["size"], "U": ob["u"], "cpu_s": ob["cpu"], "rss_delta_mib": round(ob["rss_delta_kb"] / 1024, 1), "results": ob["results"], "exc": ob.get("exc")})
+            rows.append({"n": n, "size": ob["size"], "U": ob["u"], "cpu_s": ob["cpu"], "rss_delta_mib": round(ob["rss_delta_kb"] / 1024, 1), "results": ob["results"], "out_chars": ob.get("out_chars"), "exc": ob.get("exc")})
             run.case(f"{fam}:{n}:{'exc' if ob.get('exc') else 'ok'}", sample={"family": fam, "n": n, "input_bytes": ob["size"], "cpu_s": ob["cpu"], "rss_delta_mib": round(ob["rss_delta_kb"] / 1024, 1)} if len(run.samples) < 5 and n == max(pts) else None)
             if ob["rss_delta_kb"] * 1024 > rss_budget:
                 verdict = verdict if verdict and verdict[0] == "memory-exhausted" else ("rss-over-budget", f"n={n}: RSS grew by {ob['rss_delta_kb'] // 1024} MiB for an input of {ob['size']} bytes (U={ob['u']}); budget {rss_budget // MIB} MiB")
             elif ob["cpu"] > cpu_budget and not (verdict and verdict[0] in ("memory-exhausted", "rss-over-budget")):
                 verdict = ("cpu-over-budget", f"n={n}: {ob['cpu']} s CPU for an input of {ob['size']} bytes (U={ob['u']}); budget {cpu_budget:.2f} s")
+            elif ob.get("out_chars", 0) > MIB + 4 * u and not verdict:
+                # what is handed back is memory that was allocated: the RSS budget's 64 MiB floor is slack for the allocator and
+                # late imports, not a licence to turn a 16 KB part into megabytes of text (entity references, repeat counts)
+                verdict = ("output-over-budget", f"n={n}: {ob['out_chars']} characters of text / metadata from an input of {ob['size']} bytes (U={ob['u']}, x{ob['out_chars'] // u}); budget 1 MiB + 4 x U")
         good = [r for r in rows if "cpu_s" in r]
         if kind == "size" and len(good) >= 3 and good[-1]["cpu_s"] >= 0.5 and not (verdict and verdict[0] in ("memory-exhausted", "rss-over-budget")):
             # for inputs that grow with n the growth rate decides (load-insensitive); the absolute CPU budget is only the fallback
@@ -505,7 +885,7 @@ def main(run):
     run.extras["measurements"] = table
     run.count("families_measured", sum(1 for f in table if len([r for r in table[f]]) >= 3))
     run.require("families_measured", run.counters["families_measured"], len(FAMILIES) - 1)
-    run.require("limit_probes", sum(1 for s in run.distinct if s.startswith("limit:")), 20)
+    run.require("limit_probes", sum(1 for s in run.distinct if s.startswith("limit:")), 24)
 
 
 def replay(run, doc):
